@@ -414,6 +414,11 @@ class TileCreator(object):
         query = MapQuery(tile_bbox, self.grid.tile_size, self.grid.srs,
                          self.tile_mgr.request_format, dimensions=self.dimensions)
         with self.tile_mgr.lock(tile):
+            # drop data and metadata of the expired tile that was loaded before we got the
+            # lock, another request might have refreshed the tile in the meantime
+            tile.source = None
+            tile.timestamp = None
+            tile.size = None
             if not self.is_cached(tile, dimensions=dimensions):
                 source = None
                 try:
